@@ -16,6 +16,7 @@ from typing import Dict, List, Optional, Set, Tuple
 
 from sa.cfg import CFG
 from sa.model import full, AnalysisError, Function, Repo, calls_in, const_str, dotted, norm, own_nodes, parent
+from sa.match import Locals, match
 from sa.report import Report
 from sa.strshape import ALL, AStr, ID_CONT, ID_START, Interp, SAMPLES, Unsupported, uncaught_keywords
 
@@ -189,68 +190,77 @@ def _validated_return(fn: Function, rep: Report) -> None:
 
 
 # ---------------------------------------------------------------------- R20.2
-def _dedup_site(fn: Function, label: str, seen: str, rep: Report) -> None:
+_ORDINAL = {"module stems": 1}  # second membership-while of ModelsEmitter.emit; every other namespace is the first of its function
+
+
+def _dedup_site(fn: Function, label: str, seen_hint: str, rep: Report) -> None:
+    """The de-duplication construct is found by shape, not by the name of its collection: the n-th `while <name> in <collection>`
+    loop of the function (`seen_hint` is only used in messages when no loop is found)."""
     sub0 = f"{fn.module.relpath}:{fn.qualname} namespace `{label}`"
-    whiles = []
-    for w in [n for n in own_nodes(fn.node) if isinstance(n, ast.While)]:
-        t = w.test
-        if isinstance(t, ast.Compare) and len(t.ops) == 1 and isinstance(t.ops[0], ast.In):
-            coll = norm(t.comparators[0])
-            derived = coll != seen and any(
-                isinstance(n, (ast.Assign, ast.AugAssign)) and norm(n.targets[0] if isinstance(n, ast.Assign) else n.target) == coll and seen in full(n.value)
-                for n in own_nodes(fn.node))
-            if coll == seen or derived:  # tested against the accumulating collection itself or a superset built from it
-                whiles.append(w)
-    if not whiles:
+    L = Locals(fn.node)
+    all_whiles = sorted([n for n in own_nodes(fn.node) if isinstance(n, ast.While) and isinstance(n.test, ast.Compare) and len(n.test.ops) == 1
+                         and isinstance(n.test.ops[0], ast.In) and isinstance(n.test.comparators[0], (ast.Name, ast.Attribute))], key=lambda n: n.lineno)
+    k = _ORDINAL.get(label, 0)
+    if len(all_whiles) <= k:
         rep.violation("R20.2", sub0, f"{fn.fq}|dedup|{label}|no-loop",
-                      f"no `while <name> in {seen}` loop: colliding names in this namespace are not renamed until unused (two spec names can end "
-                      "up with the same identifier, or one is dropped)", fn.loc())
+                      f"no `while <name> in <used names>` loop ({seen_hint}): colliding names in this namespace are not renamed until unused (two spec "
+                      "names can end up with the same identifier, or one is dropped)", fn.loc())
         return
-    for w in whiles:
-        t = w.test
-        left = t.left  # type: ignore[union-attr]
-        # the tested name (possibly through a sanitizer call)
-        names = [x.id for x in ast.walk(left) if isinstance(x, ast.Name) and x.id not in ("NameSanitizer",)]
-        tested = names[0] if names else None
-        # (ii) the loop body reassigns the tested name
-        reassigned = tested is not None and any(isinstance(n, ast.Assign) and any(isinstance(x, ast.Name) and x.id == tested for x in n.targets)
-                                                 for n in ast.walk(w))
-        # (iii) after the loop the final name is recorded in `seen`
-        cfg = CFG(fn.node)
-        wn = [n.id for n in cfg.nodes if n.kind == "test" and n.stmt is w]
-        rec_nodes = set()
-        rec_args = []
-        for n in cfg.nodes:
-            if n.kind != "stmt" or n.ast is None:
-                continue
-            for x in ast.walk(n.ast):
-                if isinstance(x, ast.Call) and isinstance(x.func, ast.Attribute) and x.func.attr == "add" and norm(x.func.value) == seen and x.args:
+    w = all_whiles[k]
+    t = w.test
+    coll = t.comparators[0]  # type: ignore[union-attr]
+    # the accumulating collection(s): the tested collection itself and the collections it is (re)built from, e.g. taken = set(details) | path_names
+    roots = {norm(coll)}
+    if isinstance(coll, ast.Name):
+        for kind, v, _ in L.defs.get(coll.id, []):
+            if v is not None:
+                roots |= {x.id for x in ast.walk(v) if isinstance(x, ast.Name) and x.id in L.defs}
+        for n in own_nodes(fn.node):
+            if isinstance(n, ast.AugAssign) and isinstance(n.target, ast.Name) and n.target.id == coll.id:
+                roots |= {x.id for x in ast.walk(n.value) if isinstance(x, ast.Name) and x.id in L.defs}
+    left = t.left  # type: ignore[union-attr]
+    names = [x.id for x in ast.walk(left) if isinstance(x, ast.Name) and x.id in L.defs]
+    tested = names[0] if names else None
+    # (ii) the loop body reassigns the tested name
+    reassigned = tested is not None and any(isinstance(n, (ast.Assign, ast.AugAssign)) and any(
+        isinstance(x, ast.Name) and x.id == tested for x in (n.targets if isinstance(n, ast.Assign) else [n.target])) for n in ast.walk(w))
+    # (iii) after the loop the final name is recorded in the accumulating collection
+    cfg = CFG(fn.node)
+    wn = [n.id for n in cfg.nodes if n.kind == "test" and n.stmt is w]
+    rec_nodes = set()
+    rec_args = []
+    for n in cfg.nodes:
+        if n.kind != "stmt" or n.ast is None:
+            continue
+        for x in ast.walk(n.ast):
+            if isinstance(x, ast.Call) and isinstance(x.func, ast.Attribute) and x.func.attr in ("add", "append", "setdefault") and norm(x.func.value) in roots and x.args:
+                rec_nodes.add(n.id)
+                rec_args.append(x.args[0])
+            if isinstance(x, (ast.Assign, ast.AnnAssign)):
+                tg = x.targets[0] if isinstance(x, ast.Assign) else x.target
+                if isinstance(tg, ast.Subscript) and norm(tg.value) in roots:
                     rec_nodes.add(n.id)
-                    rec_args.append(x.args[0])
-                if isinstance(x, ast.Assign) and isinstance(x.targets[0], ast.Subscript) and norm(x.targets[0].value) == seen:
-                    rec_nodes.add(n.id)
-                    rec_args.append(x.targets[0].slice)
-        hdr = {n.id for n in cfg.nodes if n.kind == "iter"}
-        recorded = False
-        if wn and rec_nodes:
-            exits = [m for m, lab in cfg.succ[wn[0]] if lab == "false"]
-            recorded = all(m in rec_nodes or cfg.must_pass(m, rec_nodes, hdr | {cfg.exit}) is None for m in exits)
-        # the recorded value must be (derived from) the tested name
-        same = False
-        for a in rec_args:
-            an = {x.id for x in ast.walk(a) if isinstance(x, ast.Name)}
-            if tested in an:
-                same = True
-            else:
-                # recorded variable defined from the tested name (method_name = sanitize(new_op_id))
-                for n in own_nodes(fn.node):
-                    if isinstance(n, ast.Assign) and any(isinstance(tg, ast.Name) and tg.id in an for tg in n.targets) and tested in {
-                            x.id for x in ast.walk(n.value) if isinstance(x, ast.Name)}:
-                        same = True
-        sub = f"{sub0} (`while {norm(t)[:50]}`)"
-        if reassigned and recorded and same:
-            rep.ok("R20.2", sub, f"tests membership in `{seen}`, renames `{tested}` until unused, records the final name on every path", fn.loc(w))
+                    rec_args.append(tg.slice)
+    hdr = {n.id for n in cfg.nodes if n.kind == "iter"}
+    recorded = False
+    if wn and rec_nodes:
+        exits = [m for m, lab in cfg.succ[wn[0]] if lab == "false"]
+        recorded = all(m in rec_nodes or cfg.must_pass(m, rec_nodes, hdr | {cfg.exit}) is None for m in exits)
+    # the recorded value must be (derived from) the tested name
+    same = False
+    for a in rec_args:
+        an = {x.id for x in ast.walk(a) if isinstance(x, ast.Name)}
+        if tested in an:
+            same = True
         else:
-            rep.violation("R20.2", sub, f"{fn.fq}|dedup|{label}|reassigned={reassigned}|recorded={recorded}|same={same}",
-                          f"de-duplication is unsound: renames-in-loop={reassigned}, final-name-recorded-on-every-path={recorded}, "
-                          f"recorded-name-is-the-tested-one={same}", fn.loc(w))
+            for n in own_nodes(fn.node):
+                if isinstance(n, ast.Assign) and any(isinstance(tg, ast.Name) and tg.id in an for tg in n.targets) and tested in {
+                        x.id for x in ast.walk(n.value) if isinstance(x, ast.Name)}:
+                    same = True
+    sub = f"{sub0} (`while <name> in <used names>`)"
+    if reassigned and recorded and same:
+        rep.ok("R20.2", sub, f"tests membership in `{norm(coll)}`, renames `{tested}` until unused, records the final name on every path", fn.loc(w))
+    else:
+        rep.violation("R20.2", sub, f"{fn.fq}|dedup|{label}|reassigned={reassigned}|recorded={recorded}|same={same}",
+                      f"de-duplication is unsound: renames-in-loop={reassigned}, final-name-recorded-on-every-path={recorded}, "
+                      f"recorded-name-is-the-tested-one={same}", fn.loc(w))
